@@ -104,6 +104,14 @@ def append_only_rule(repo, chk, fn, frame, oid, depth=0):
     ok_ret = bool(rets) and all(isinstance(r.value, ast.Name) and r.value.id == frame for r in rets)
     if not ok_ret:
         chk.bad(oid, 'R11', fn.site(rets[0]) if rets else fn.site(), ast.unparse(rets[0])[:100] if rets else 'return', f'{fn.qualname} must return the (extended) input frame')
+    # the new columns actually reach the result: a concat of the input with a frame built from the dict the constructor fills
+    dict_names = {n.targets[0].value.id for n in own_nodes(fn.node) if isinstance(n, ast.Assign) and isinstance(n.targets[0], ast.Subscript) and isinstance(n.targets[0].value, ast.Name)}
+    frames = {n.targets[0].id: n.value for n in own_nodes(fn.node) if isinstance(n, ast.Assign) and isinstance(n.targets[0], ast.Name) and isinstance(n.value, ast.Call) and m.dotted(n.value.func) == 'pandas.DataFrame' and n.value.args and isinstance(n.value.args[0], ast.Name) and n.value.args[0].id in dict_names}
+    reaches = any(isinstance(s.value, ast.Call) and m.dotted(s.value.func) == 'pandas.concat' and s.value.args and isinstance(s.value.args[0], (ast.List, ast.Tuple)) and len(s.value.args[0].elts) == 2 and isinstance(s.value.args[0].elts[1], ast.Name) and s.value.args[0].elts[1].id in frames for s in rebinds)
+    if depth == 0 and not reaches:
+        chk.bad(oid + '-new', 'R11', fn.site(), f'{frame} = pd.concat([{frame}, pd.DataFrame(<new columns>)], axis=1)', f'{fn.qualname} never appends the columns it constructs (no pd.concat of the input with the frame built from its new-column dict): the constructed features do not reach the ranked frame')
+    elif depth == 0:
+        chk.ok(oid + '-new', 'R11', fn.site(), f'{frame} = pd.concat([{frame}, pd.DataFrame(<new columns>)], axis=1)', 'the constructed columns are appended')
     if not viol and ok_rebinds and ok_ret:
         chk.ok(oid, 'R11', fn.site(), f'{fn.qualname}: {len(rebinds)} rebind(s) via pd.concat([{frame}, new], axis=1); no store into {frame}', 'append-only: input first, only new columns added', inspected=len(stmts))
 
